@@ -316,6 +316,42 @@ def _n4(run: Run, w: World) -> None:
                 good = True
     if not good:
         run.violate("N4", f"{g.qual}:fallback", g.mod, g.fn, "Symbol.__init__ does not give the caller's display_symbol precedence over the generated name")
+    # generated class names (FUN12) in the human-readable printers and their helpers: `X.__name__` may be printed only for foreign objects
+    from ..flow import conditions_for, stmt_of
+
+    def is_dimsym_test(t, target: str) -> bool:
+        return isinstance(t, ast.Call) and dotted(t.func) == "isinstance" and len(t.args) == 2 and dotted(t.args[0]) == target \
+            and "DimensionSymbol" in {dotted(e) for e in (t.args[1].elts if isinstance(t.args[1], ast.Tuple) else [t.args[1]])}
+
+    nn = 0
+    for modname in ("symplyphysics.docs.miscellaneous", "symplyphysics.docs.printer_code", "symplyphysics.docs.printer_latex", "symplyphysics.docs.printer_pretty"):
+        m = run.src.mods.get(modname)
+        if m is None:
+            continue
+        for fn in [x for x in ast.walk(m.tree) if isinstance(x, ast.FunctionDef)]:
+            for u in [x for x in ast.walk(fn) if isinstance(x, ast.Attribute) and x.attr == "__name__" and isinstance(x.ctx, ast.Load)]:
+                if any(isinstance(g_, ast.FunctionDef) and g_ is not fn and any(y is u for y in ast.walk(g_)) for g_ in ast.walk(fn)):
+                    continue  # reported for the inner function
+                target = dotted(u.value)
+                if target is None or target.split(".")[0] in ("type", "cls", "self.__class__"):
+                    continue
+                nn += 1
+                run.ob("N4", f"{modname}:{fn.name}:{target}.__name__")
+                st = stmt_of(fn, u)
+                conds = [(t, pol) for t, pol in (conditions_for(fn, st) or []) if not isinstance(t, str)]
+                ok = any(pol is False and is_dimsym_test(t, target) for t, pol in conds)
+                if not ok and isinstance(st, ast.Assign) and len(st.targets) == 1 and isinstance(st.targets[0], ast.Name) and st.value is u:
+                    # `v = X.__name__` followed by `if isinstance(X, DimensionSymbol): v = X.display_...` in the same function
+                    v = st.targets[0].id
+                    for later in [x for x in ast.walk(fn) if isinstance(x, ast.If) and is_dimsym_test(x.test, target)]:
+                        if any(isinstance(a, ast.Assign) and any(isinstance(t_, ast.Name) and t_.id == v for t_ in a.targets) and isinstance(a.value, ast.Attribute)
+                               and a.value.attr.startswith("display_") for a in later.body):
+                            ok = True
+                if not ok:
+                    run.violate("N4", f"{modname}:{fn.name}:{target}.__name__", m, u,
+                                f"`{target}.__name__` - for a library function the generated class name (FUN12) - reaches human-readable output of {fn.name} without a failed "
+                                f"isinstance({target}, DimensionSymbol) test or a display-name override: functions are printed under internal names")
+    run.floor("N4", nn, 2, "__name__ reads in the printers")
 
 
 def check(run: Run) -> None:
